@@ -19,4 +19,10 @@ def run(ctx):
         trusted_base=g.TRUSTED + ["certs.ValidateFinalityCertificates itself is the subject of C04"],
         assumptions=["committee members deliver only validated messages to the instance (C05)"],
         search=g.search("C03-"),
+        partial=["the model's justification record carries no instance id and no supplemental data (the harness hands the "
+                 "model two booleans instOk / suppOk computed on the real message): 'the justification is for that instance "
+                 "and the instance's supplemental data' is judged by the per-decision oracle and by the real certificate "
+                 "validation on every run, not by a theorem",
+                 "the certificate is built in Lean by decisionCert (Proofs/DecisionCert); its tie to certs.NewFinalityCertificate "
+                 "/ host.saveDecision is the host-save stream (real saveDecision, real certstore), not a translation"],
     )
